@@ -422,7 +422,7 @@ pub fn run(ctx: &Ctx) -> ! {
     };
     let specs: Vec<(String, System)> = pairs
         .iter()
-        .map(|(hubn, a, b, ssh)| (format!("hub-sync {a} || hub-sync {b} on {hubn}{}", if *ssh { " (host:root)" } else { "" }), System { init: tree(hubn), programs: vec![], external: vec![ExtClient { tree: tree(a), via_ssh: *ssh }, ExtClient { tree: tree(b), via_ssh: *ssh }] }))
+        .map(|(hubn, a, b, ssh)| (format!("hub-sync {a} || hub-sync {b} on {hubn}{}", if *ssh { " (host:root)" } else { "" }), System { init: tree(hubn), programs: vec![], external: vec![ExtClient { tree: tree(a), via_ssh: *ssh }, ExtClient { tree: tree(b), via_ssh: *ssh }], late: vec![] }))
         .collect();
     let envs: Vec<Mutex<WorkerEnv>> = (0..16).map(|i| Mutex::new(WorkerEnv::new(&format!("c13w{i}")))).collect();
     if let Some(rp) = &ctx.replay {
